@@ -44,6 +44,8 @@ def gen_cases(tier, seed):
             yield "privkey_bytes", {"len": ln, "cls": cls, "salt": rng.getrandbits(32)}
     for v in (0, N, N + 1, (1 << 256) - 1, N - 1, 1):
         yield "privkey_value", {"v": hex(v)}
+    for i in range(12 if q else 150):
+        yield "privkey_history", {"k": hex([1, 2, 255, 256, N - 1][i % 5] if i % 2 == 0 else rng.getrandbits(rng.choice([8, 64, 200, 247])) or 7)}
     # key generation
     for draw in [0, 1, 2, N - 2, N - 1, N - 3] + [rng.randrange(N) for _ in range(10 if q else 200)]:
         yield "keygen", {"draw": hex(draw)}
@@ -62,7 +64,7 @@ def gen_cases(tier, seed):
 
 def required(tier):
     return {"scalar.decided": 40, "add.decided": 30, "add.rel.neg": 3, "add.rel.same": 3, "identities.decided": 20,
-            "pubkey.decided": 30, "privkey.refused": 150, "keygen.decided": 10, "keygen.draw0": 1,
+            "pubkey.decided": 30, "privkey.refused": 150, "privkey.refused_after_valid_use": 100, "keygen.decided": 10, "keygen.draw0": 1,
             "small.pairs": 5000, "small.scalars": 5000, "small.assoc": 20000,
             "contract:point_add.closed": 10000, "contract:point_scalar_mul.closed": 1000}
 
@@ -197,6 +199,31 @@ def run_case(kind, params, ctx):
                     ctx.violation(f"privkey/invalid-accepted/{name}/{_pkclass(b)}", f"{name}({b.hex()}) returned {out!r:.80}")
                 else:
                     ctx.count("privkey.refused")
+        ctx.nontrivial()
+        return
+    if kind == "privkey_history":
+        k = int(params["k"], 16) % N or 1
+        good = k32(k)
+        exp = secp.pub(k)
+        if tuple(bu.compute_point(good)) != exp or bytes(bk.pub(good, compressed=True)) != secp.sec1_encode(exp, True):
+            ctx.violation("pubkey/compute_point-wrong", f"{k:#x}")
+        minimal = k.to_bytes(max(1, (k.bit_length() + 7) // 8), "big")
+        bad = [b"\x00" + good, b"\x00" * 8 + good, good + b"\x00", good[1:] if good[0] == 0 else good[:-1], minimal if len(minimal) != 32 else b"\x00" * 2 + good]
+        for b in bad:
+            if len(b) == 32:
+                continue
+            for name, fn in (("privkey_int", lambda: bu.privkey_int(b)), ("compute_point", lambda: bu.compute_point(b)), ("keys.pub", lambda: bk.pub(b)),
+                             ("wif_encode", lambda: bu.wif_encode(b))):
+                ctx.count("privkey.decided")
+                try:
+                    out = fn()
+                except ContractViolation:
+                    raise
+                except Exception:
+                    ctx.count("privkey.refused")
+                    ctx.count("privkey.refused_after_valid_use")
+                    continue
+                ctx.violation(f"privkey/invalid-accepted-after-valid-use/{name}/len{'<' if len(b) < 32 else '>'}32", f"{name}({b.hex()}) returned {out!r:.80} after the valid 32-byte encoding of the same integer had been used")
         ctx.nontrivial()
         return
     if kind == "keygen":
